@@ -8,9 +8,9 @@ import G3D.Proofs.Euler5
     `x.move v` is modelled as a function returning (receiver after the call, returned object), WITH the cached
     derived fields of the code (carrier line of Segment / HalfLine, plane and centre of ConvexPolygon, vertex / edge /
     pyramid sets of ConvexPolyhedron) updated exactly as the code updates them.
-    Full for Point, Line, Plane, Segment, HalfLine (histories of any length); ConvexPolygon: vertices, validity,
-    membership, measures and histories (full), returned == receiver up to the re-sort of an already sorted cycle
-    (partial, K6-like); ConvexPolyhedron: structure of a successful move and returned = receiver (partial). -/
+    Full for Point, Line, Plane, Segment, HalfLine (histories of any length); ConvexPolygon: vertices, validity, membership,
+    measures, histories, returned == receiver (K6: re-sorting a sorted cycle is the identity); ConvexPolyhedron: the move
+    succeeds (Euler's formula proved), returned = receiver, Valid and `ExactHyp` again, membership translated, measures kept. -/
 namespace G3D.Props.C07
 open G3D V3
 
